@@ -49,6 +49,10 @@ AmbiguousOuter(cf, v) == cf.rep = "none" /\ ~Uniform(cf.c) /\ ~InCentres(cf, v) 
 \* the range the lookup treats as "in": centres for nearest/exact, edges for bounds
 InRange(cf, v) == IF cf.method = "bounds" THEN InEdges(cf, v) ELSE InCentres(cf, v)
 
+\* an explicit right-hand value is in force and v lies above the last edge
+RS(cf) == IF "rs" \in DOMAIN cf THEN cf.rs ELSE 0
+RightOut(cf, v) == RS(cf) # 0 /\ cf.c[1] < cf.c[N(cf)] /\ v > MaxOf(cf.e) /\ ~(cf.rep = "none" /\ ~Uniform(cf.c))
+
 \* -------------------------------------------------------------- the property
 \* is observation ob (with warning flag w) allowed for value v ?
 AllowedObs(cf, v, ob, w) ==
@@ -67,6 +71,10 @@ AllowedObs(cf, v, ob, w) ==
      ob.k = "idx" =>
        CASE cf.method = "nearest" -> ob.i \in Nearest(cf, v)
          [] cf.method = "bounds" ->
+              \* an explicit value for the right side (cf.rs # 0, ascending coordinate,
+              \* see np.interp): what is returned for values above the last edge
+              IF RightOut(cf, v) THEN ob.i = cf.rs
+              ELSE
               IF InEdges(cf, v) /\ ~AmbiguousOuter(cf, v) THEN ob.i \in Cells(cf, v)
               ELSE \* out of range: only the documented clamping to the end cell,
                    \* and only when neither masking nor rejection was requested
